@@ -254,7 +254,7 @@ func (f *File) AddChild(child Box, boxStartPos uint64) {
 		f.Ftyp = box
 	case *MoovBox:
 		f.Moov = box
-		if len(f.Moov.Trak.Mdia.Minf.Stbl.Stts.SampleCount) == 0 {
+		if moovHasNoSamples(f.Moov) {
 			f.isFragmented = true
 			f.Init = NewMP4Init()
 			f.Init.AddChild(f.Ftyp)
@@ -316,6 +316,17 @@ func (f *File) AddChild(child Box, boxStartPos uint64) {
 		f.Mfra = box
 	}
 	f.Children = append(f.Children, child)
+}
+
+// moovHasNoSamples tells if moov describes no samples, i.e. belongs to the init segment of a fragmented file.
+// If the first trak lacks the boxes down to stts (or there is no trak), the presence of mvex decides.
+func moovHasNoSamples(moov *MoovBox) bool {
+	trak := moov.Trak
+	if trak == nil || trak.Mdia == nil || trak.Mdia.Minf == nil ||
+		trak.Mdia.Minf.Stbl == nil || trak.Mdia.Minf.Stbl.Stts == nil {
+		return moov.Mvex != nil
+	}
+	return len(trak.Mdia.Minf.Stbl.Stts.SampleCount) == 0
 }
 
 // startSegmentIfNeeded starts a new segment if there is none or if position match with sidx of tfra.
